@@ -71,6 +71,20 @@ def main(tier):
     run.rule = "obligation = one structural fact about the generator (interpolation site, construction site, emitted identifier); non-trivial = distinct facts"
     prog = facts.load("dev", None, crate="indextree_macros")
     f = prog.fns.get("crate::tree")
+    # the function holding the final template: the one that interpolates fields of the parsed macro input (tree itself today; a helper such as `expand` is the same thing)
+    def _from_input(o):
+        # a field of the parsed input: the result of syn::parse / parse2 / parse_macro_input!, possibly unwrapped by `?`
+        return o[0] == "call" and ("syn::parse" in o[1] or (o[1].endswith("try_trait::Try>::branch") and "Continue.0." in o[3]))
+
+    def _interpolates_input(fn_):
+        for bi_, t_ in prog.calls(fn_):
+            if rules.callee_name(t_["callee"]).endswith(TOTOK):
+                if any(_from_input(o) for o in rules.origin(prog, fn_, t_["args"][0])):
+                    return True
+        return False
+    fcands = [fn_ for k_, fn_ in sorted(prog.fns.items()) if "mir" in fn_ and not fn_.get("impl_derived") and "{closure" not in k_ and _interpolates_input(fn_)]
+    if len(fcands) == 1:
+        f = fcands[0]
     # the function holding the per-action templates: it dispatches on the Action kind and emits tokens (Action::to_stream today; found by what it does, not by name)
     gs = []
     for k, fn_ in prog.fns.items():
@@ -95,7 +109,7 @@ def main(tier):
         n = rules.callee_name(t["callee"])
         if n.endswith(TOTOK):
             org = rules.origin(prog, f, t["args"][0])
-            names = sorted({o[3].split(".")[-1] if o[0] == "call" else "" for o in org if o[0] == "call" and "syn::parse" in o[1]})
+            names = sorted({o[3].split(".")[-1] for o in org if _from_input(o)})
             inter.append((bi, n, names))
     arena_sites = [i for i in inter if i[2] == ["arena"]]
     root_sites = [i for i in inter if i[2] == ["root_node"]]
